@@ -79,6 +79,9 @@ func VfClockEnable(start time.Time) {
 	vfClock.mu.Unlock()
 }
 
+// VfClockNow reads the clock this package uses (virtual or real).
+func VfClockNow() time.Time { return vfClockNow() }
+
 func VfClockDisable() {
 	vfClock.mu.Lock()
 	vfClock.virtual = false
